@@ -16,14 +16,15 @@ def cif_inputs():
             + [r + "/utils/cm_cleaner.sh", r + "/utils/cm_splitter.sh", r + "/utils/build_header"])
 
 
-def build_cif(lib):
+def build_cif(lib, full=False):
+    """full: every class of /repo/interfaces/ppl_interface_instantiations.m4 (13 classes) instead of Polyhedron and Grid."""
     flags = "-DHAVE_CONFIG_H -D%s -O1 -frounding-math -w -std=gnu++11" % core.GUARD
-    h = core.file_hash([p for p in cif_inputs() if not p.endswith((".o", ".lo"))], lib + flags + "@".join(CLASSES))[:16]
-    d = os.path.join(core.BUILD, "cif-%s" % h)
+    h = core.file_hash([p for p in cif_inputs() if not p.endswith((".o", ".lo"))], lib + flags + "@".join(CLASSES) + str(full))[:16]
+    d = os.path.join(core.BUILD, "cif%s-%s" % ("all" if full else "", h))
     if os.path.exists(os.path.join(d, ".done")):
         os.utime(d)
         return d
-    with core.Lock("cif"):
+    with core.Lock("cifall" if full else "cif"):
         if os.path.exists(os.path.join(d, ".done")):
             return d
         t0 = time.time()
@@ -32,9 +33,14 @@ def build_cif(lib):
         os.makedirs(os.path.join(d, "gen", "sub"))
         g = os.path.join(d, "gen")
         R = core.REPO
-        open(os.path.join(g, "ppl_interface_instantiations.m4"), "w").write(
-            "m4_define(`m4_interface_classes_names', `%s')\nm4_define(`m4_cplusplus_classes_names', `%s')\n"
-            % ("@".join(CLASSES), "@".join(CXX[c] for c in CLASSES)))
+        inst = ("m4_define(`m4_interface_classes_names', `%s')\nm4_define(`m4_cplusplus_classes_names', `%s')\n"
+                % ("@".join(CLASSES), "@".join(CXX[c] for c in CLASSES)))
+        classes = list(CLASSES)
+        if full:
+            inst = open(os.path.join(core.REPO, "interfaces", "ppl_interface_instantiations.m4")).read()
+            import re
+            classes = re.search(r"m4_interface_classes_names', `([^']*)'", inst).group(1).split("@")
+        open(os.path.join(g, "ppl_interface_instantiations.m4"), "w").write(inst)
         # the generators m4_include "ppl_interface_instantiations.m4" via -I..; run from gen/sub so that .. = gen
         sub = os.path.join(g, "sub")
         m4 = "cd %s && m4 --prefix-builtin -I.. -I%s/interfaces/C -I%s/interfaces " % (sub, R, R)
@@ -54,7 +60,7 @@ def build_cif(lib):
                 raise RuntimeError("C interface generation failed: " + s)
         if os.path.getsize(os.path.join(d, "inc", "ppl_c.h")) < 50000:
             raise RuntimeError("ppl_c.h too small")
-        srcs = [R + "/interfaces/C/ppl_c_implementation_common.cc"] + [os.path.join(sub, "ppl_c_%s.cc" % c) for c in CLASSES]
+        srcs = [R + "/interfaces/C/ppl_c_implementation_common.cc"] + [os.path.join(sub, "ppl_c_%s.cc" % c) for c in classes]
         for s in srcs:
             if not os.path.exists(s):
                 raise RuntimeError("missing generated source " + s)
@@ -66,6 +72,6 @@ def build_cif(lib):
             raise RuntimeError("C interface build failed")
         core.sh("ar rcs %s/libppl_c.a %s/*.o && rm %s/*.o" % (d, d, d), check=True)
         open(os.path.join(d, ".done"), "w").write(h)
-        core.log("built libppl_c (C interface: %s) in %.1fs -> %s" % (", ".join(CLASSES), time.time() - t0, d))
-        core._prune("cif-", 2)
+        core.log("built libppl_c (C interface: %s) in %.1fs -> %s" % (", ".join(classes), time.time() - t0, d))
+        core._prune("cifall-" if full else "cif-", 2)
     return d
